@@ -94,14 +94,19 @@ def run_env_job(a):
         shutil.rmtree(d, ignore_errors=True)
 
 
+TSAN_COMPS = [("xz", None), ("xz", "extreme"), ("xz", "x86,extreme,dictsize=8192"), ("xz", "level=1,lc=1,lp=1,pb=1"), ("lzma", None), ("lz4", None), ("lz4", "hc"),
+              ("zstd", None), ("zstd", "level=7"), ("gzip", "level=3,window=10,filtered,huffman")]
+
+
 def run_tsan_job(a):
-    exe_, wd, j, q = a
+    exe_, wd, j, q = a[:4]
+    comp, xo = a[4] if len(a) > 4 else ("gzip", None)
     d = tempfile.mkdtemp(prefix="t", dir=wd)
     try:
         img = os.path.join(d, "o.sqfs")
-        r = run_tool([exe_, "-q", "-b", "4096", "-c", "gzip", "-j", str(j), "-Q", str(q), "-F", os.path.join(wd, "pack.txt"), "-D", os.path.join(wd, "in"), img], timeout=300)
+        r = run_tool([exe_, "-q", "-b", "4096", "-c", comp] + (["-X", xo] if xo else []) + ["-j", str(j), "-Q", str(q), "-F", os.path.join(wd, "pack.txt"), "-D", os.path.join(wd, "in"), img], timeout=300)
         bad = r.crashed or b"ThreadSanitizer" in r.err
-        return bad, (r.crash_fingerprint() if bad else ""), "-j %d -Q %d in %s" % (j, q, os.path.basename(wd)), r.err.decode("latin1")[-3000:]
+        return bad, (r.crash_fingerprint() if bad else ""), "-c %s%s -j %d -Q %d in %s" % (comp, " -X " + xo if xo else "", j, q, os.path.basename(wd)), r.err.decode("latin1")[-3000:]
     finally:
         shutil.rmtree(d, ignore_errors=True)
 
@@ -278,6 +283,10 @@ def main():
                 for j_, q_ in ((4, 1), (4, 1000), (2, 3), (8, 10)):
                     for rep in range(2 if cr.quick else 10):
                         tj.append((tt["gensquashfs"], wdx, j_, q_))
+            # every compressor (and its option sets): the workers' private copies must not share anything
+            for cx in TSAN_COMPS:
+                for j_, q_ in ((4, 10),) if cr.quick else ((4, 10), (2, 1), (8, 1000)):
+                    tj.append((tt["gensquashfs"], os.path.join(sd, "cfg_" + inputs[0][0]), j_, q_, cx))
             for r_ in pmap(run_tsan_job, tj, procs=4):
                 n_tsan += 1
                 if r_[0]:
